@@ -3,7 +3,7 @@ from .. import relcheck
 from .common import generic_replay
 
 FAMS = ["Noh", "Noh2", "Sedov", "RiemannIG", "Cog1", "Cog8", "EHEP", "Mader", "EPpiston", "Kenamond1", "Kenamond2",
-        "Kenamond3", "DSDcyl", "Blake", "Rod1D", "Hutchens1"]
+        "Kenamond3", "DSDcyl", "Blake", "Rod1D", "Hutchens1", "Guderley"]
 
 
 def run(tier):
